@@ -1,28 +1,582 @@
 import PhyVerif.Model.C14
 import PhyVerif.Spec.C14
+import PhyVerif.Lemmas.C07
+import PhyVerif.Lemmas.C11
+import PhyVerif.Lemmas.C12
+import Mathlib.Tactic.Linarith
+import Mathlib.Algebra.Order.Field.Rat
 /-! Helper lemmas and full proofs for C14. Statements: `Props/C14.lean`. -/
 namespace PhyVerif.C14.Lemmas
 open PhyVerif PhyVerif.C09 PhyVerif.C12 PhyVerif.C14
 
+/-! ### generic list facts -/
+
+theorem sorted_ext : ∀ (a b : List Nat), a.Pairwise (· < ·) → b.Pairwise (· < ·) →
+    (∀ v, v ∈ a ↔ v ∈ b) → a = b
+  | [], [], _, _, _ => rfl
+  | [], y :: ys, _, _, h => by have := (h y).2 (by simp); simp at this
+  | x :: xs, [], _, _, h => by have := (h x).1 (by simp); simp at this
+  | x :: xs, y :: ys, ha, hb, h => by
+    rw [List.pairwise_cons] at ha hb
+    have hxy : x = y := by
+      rcases List.mem_cons.1 ((h x).1 (by simp)) with e | hx
+      · exact e
+      · rcases List.mem_cons.1 ((h y).2 (by simp)) with e | hy
+        · exact e.symm
+        · have := ha.1 y hy; have := hb.1 x hx; omega
+    subst hxy
+    congr 1
+    apply sorted_ext xs ys ha.2 hb.2
+    intro v
+    constructor
+    · intro hv
+      rcases List.mem_cons.1 ((h v).1 (List.mem_cons_of_mem _ hv)) with e | hv'
+      · have := ha.1 v hv; omega
+      · exact hv'
+    · intro hv
+      rcases List.mem_cons.1 ((h v).2 (List.mem_cons_of_mem _ hv)) with e | hv'
+      · have := hb.1 v hv; omega
+      · exact hv'
+
+theorem getD_eq_getElem (l : List Nat) (i : Nat) (hi : i < l.length) : l.getD i 0 = l[i] := by
+  simp [List.getD_eq_getElem?_getD, hi]
+
+theorem getD_mem (l : List Nat) (i : Nat) (hi : i < l.length) : l.getD i 0 ∈ l := by
+  rw [getD_eq_getElem l i hi]; simp
+
+theorem prefixSum_succ (l : List Nat) (k : Nat) :
+    prefixSum l (k + 1) = prefixSum l k + l.getD k 0 := by
+  unfold prefixSum
+  rw [List.take_add_one, List.sum_append, List.getD_eq_getElem?_getD]
+  cases l[k]? <;> simp
+
+theorem prefixSum_le_sum (l : List Nat) (k : Nat) : prefixSum l k ≤ l.sum := by
+  unfold prefixSum
+  conv => rhs; rw [← List.take_append_drop k l, List.sum_append]
+  omega
+
+theorem prefixSum_length (l : List Nat) : prefixSum l l.length = l.sum := by
+  simp [prefixSum]
+
+theorem block_decomp : ∀ (l : List Nat) (p : Nat), p < l.sum →
+    ∃ j, j < l.length ∧ prefixSum l j ≤ p ∧ p < prefixSum l (j + 1)
+  | [], p, hp => by simp at hp
+  | a :: l, p, hp => by
+    by_cases h : p < a
+    · exact ⟨0, by simp, by simp [prefixSum], by simpa [prefixSum] using h⟩
+    · have hp' : p - a < l.sum := by simp at hp; omega
+      obtain ⟨j, hj, h1, h2⟩ := block_decomp l (p - a) hp'
+      refine ⟨j + 1, by simpa using hj, ?_, ?_⟩
+      · rw [C12.Lemmas.prefixSum_cons_succ]; omega
+      · rw [C12.Lemmas.prefixSum_cons_succ]; omega
+
+theorem flatten_get {β : Type} (L : List (List β)) :
+    ∀ (k i : Nat), k < L.length → i < (L.getD k []).length →
+      L.flatten[prefixSum (L.map List.length) k + i]? = (L.getD k [])[i]? := by
+  induction L with
+  | nil => intro k i hk; simp at hk
+  | cons a L ih =>
+    intro k i hk hi
+    cases k with
+    | zero =>
+      have hi' : i < a.length := by simpa using hi
+      simp [C12.Lemmas.prefixSum_zero, List.getElem?_append_left, hi']
+    | succ k =>
+      have hk' : k < L.length := by simpa using hk
+      have hi' : i < (L.getD k []).length := by simpa using hi
+      have := ih k i hk' hi'
+      simp only [List.map_cons, List.flatten_cons, C12.Lemmas.prefixSum_cons_succ, List.getD_cons_succ]
+      rw [List.getElem?_append_right (by omega)]
+      rw [show a.length + prefixSum (L.map List.length) k + i - a.length =
+        prefixSum (L.map List.length) k + i by omega]
+      exact this
+
+theorem setFold_length (f : Nat → Int) (idx : List Nat) :
+    ∀ o : List Int, (idx.foldl (fun o i => o.set i (f i)) o).length = o.length := by
+  induction idx with
+  | nil => intro o; rfl
+  | cons i idx ih => intro o; rw [List.foldl_cons, ih]; simp
+
+theorem setFold_get (f : Nat → Int) (idx : List Nat) :
+    ∀ (o : List Int) (p : Nat), p < o.length →
+      (idx.foldl (fun o i => o.set i (f i)) o).getD p 0 = if p ∈ idx then f p else o.getD p 0 := by
+  induction idx with
+  | nil => intro o p _; simp
+  | cons i idx ih =>
+    intro o p hp
+    rw [List.foldl_cons, ih _ p (by simpa using hp)]
+    by_cases h1 : p ∈ idx
+    · simp [h1]
+    · by_cases h2 : p = i
+      · subst h2; simp [h1, List.getD_eq_getElem?_getD, hp]
+      · have h3 : ¬ i = p := fun e => h2 e.symm
+        simp [h1, h2, h3, List.getD_eq_getElem?_getD]
+
+
+/-! ### `exportRawInd` inverts `mergeChannelMaps` -/
+
+/-- one iteration of the per-probe loop of `make_channel_objects` -/
+def stepFn (cm probes : List Nat) (st : List Int × Nat) (p : Nat) : List Int × Nat :=
+  let idx := (List.range cm.length).filter fun i => probes.getD i 0 == p
+  let vals := idx.map fun i => cm.getD i 0
+  let out := idx.foldl (fun o i => o.set i ((cm.getD i 0 : Int) - (st.2 : Int))) st.1
+  (out, vals.foldl max 0 + 1)
+
+theorem exportRawInd_eq (cm probes : List Nat) :
+    exportRawInd cm probes =
+      ((uniqueNat probes).foldl (stepFn cm probes) (List.replicate cm.length 0, 0)).1 := rfl
+
+theorem merge_length (maps : List (List Nat)) :
+    (mergeChannelMaps maps).length = (maps.map List.length).sum :=
+  C12.Lemmas.zipFlat_length (fun x o => x + o) maps (chanOffsets maps)
+    (C12.Lemmas.chanOffsetsFrom_length maps 0)
+
+theorem probes_length (maps : List (List Nat)) :
+    (channelProbes maps).length = (maps.map List.length).sum := by
+  rw [C12.Lemmas.channelProbes_eq]
+  exact C12.Lemmas.zipFlat_length (fun (_ : Nat) o => o) maps (List.range' 0 maps.length) (by simp)
+
+/-- everything known about position `p` of the merged arrays -/
+theorem block_facts (maps : List (List Nat)) (h : MapsOK maps) (p : Nat)
+    (hp : p < (maps.map List.length).sum) :
+    ∃ k i, k < maps.length ∧ i < (maps.getD k []).length ∧
+      p = prefixSum (maps.map List.length) k + i ∧
+      (mergeChannelMaps maps).getD p 0 =
+        (maps.getD k []).getD i 0 + prefixSum (maps.map List.length) k ∧
+      (channelProbes maps).getD p 0 = k ∧
+      ((maps.flatten).map Int.ofNat).getD p 0 = Int.ofNat ((maps.getD k []).getD i 0) := by
+  obtain ⟨k, hk, h1, h2⟩ := block_decomp _ p hp
+  have hk' : k < maps.length := by simpa using hk
+  have hsz : (maps.map List.length).getD k 0 = (maps.getD k []).length := by
+    simp [List.getD_eq_getElem?_getD, hk']
+  rw [prefixSum_succ, hsz] at h2
+  have hi : p - prefixSum (maps.map List.length) k < (maps.getD k []).length := by omega
+  have hpe : p = prefixSum (maps.map List.length) k + (p - prefixSum (maps.map List.length) k) := by
+    omega
+  obtain ⟨c1, c2, _, c4⟩ := C12.Lemmas.channels_block maps h k _ hk' hi
+  rw [← hpe] at c1 c2
+  refine ⟨k, _, hk', hi, hpe, c1, ?_, ?_⟩
+  · have hlt : p < (channelProbes maps).length := by rw [probes_length]; exact hp
+    rw [List.getD_eq_getElem?_getD, List.getElem?_eq_getElem hlt] at c2 ⊢
+    simpa using c2
+  · have := flatten_get maps k _ hk' hi
+    rw [← hpe] at this
+    generalize maps.getD k [] = row at hi this ⊢
+    rw [List.getD_eq_getElem?_getD, List.getElem?_map, this, List.getElem?_eq_getElem hi]
+    simp [List.getD_eq_getElem?_getD, hi]
+
+theorem uniqueNat_channelProbes (maps : List (List Nat)) (h : MapsOK maps) :
+    uniqueNat (channelProbes maps) = List.range maps.length := by
+  obtain ⟨h1, h2⟩ := C07.Lemmas.unique_spec ((channelProbes maps).map Int.ofNat)
+  apply sorted_ext _ _ h1 List.pairwise_lt_range
+  intro v
+  show v ∈ Np.unique _ ↔ _
+  rw [h2, List.mem_range]
+  have hmem : Int.ofNat v ∈ (channelProbes maps).map Int.ofNat ↔ v ∈ channelProbes maps := by
+    rw [List.mem_map]
+    constructor
+    · rintro ⟨a, ha, hav⟩
+      rw [← Int.ofNat.inj hav]; exact ha
+    · intro hv; exact ⟨v, hv, rfl⟩
+  show Int.ofNat v ∈ (channelProbes maps).map Int.ofNat ↔ _
+  rw [hmem]
+  constructor
+  · intro hv
+    obtain ⟨p, hp, rfl⟩ := List.getElem_of_mem hv
+    obtain ⟨k, i, hk, _, _, _, hpk, _⟩ := block_facts maps h p (by rw [← probes_length]; exact hp)
+    rw [List.getD_eq_getElem?_getD, List.getElem?_eq_getElem hp] at hpk
+    simp only [Option.getD_some] at hpk
+    omega
+  · intro hv
+    have hne : maps.getD v [] ≠ [] := by
+      have : maps.getD v [] ∈ maps := by
+        rw [List.getD_eq_getElem?_getD, List.getElem?_eq_getElem hv]; simp
+      exact (h _ this).1
+    have hi : 0 < (maps.getD v []).length := List.length_pos_iff.mpr hne
+    have := (C12.Lemmas.channels_block maps h v 0 hv hi).2.1
+    rw [List.getD_eq_getElem?_getD] at this
+    cases hq : (channelProbes maps)[prefixSum (maps.map List.length) v + 0]? with
+    | none => rw [hq] at this; simp at this; omega
+    | some q =>
+      rw [hq] at this
+      simp only [Option.getD_some] at this
+      subst this
+      exact List.mem_of_getElem? hq
+
+
+theorem block_facts' (maps : List (List Nat)) (h : MapsOK maps) (k i : Nat) (hk : k < maps.length)
+    (hi : i < (maps.getD k []).length) :
+    prefixSum (maps.map List.length) k + i < (maps.map List.length).sum ∧
+    (mergeChannelMaps maps).getD (prefixSum (maps.map List.length) k + i) 0 =
+        (maps.getD k []).getD i 0 + prefixSum (maps.map List.length) k ∧
+    (channelProbes maps).getD (prefixSum (maps.map List.length) k + i) 0 = k := by
+  have hsz : (maps.map List.length).getD k 0 = (maps.getD k []).length := by
+    simp [List.getD_eq_getElem?_getD, hk]
+  have hlt : prefixSum (maps.map List.length) k + i < (maps.map List.length).sum := by
+    have h1 := prefixSum_succ (maps.map List.length) k
+    have h2 := prefixSum_le_sum (maps.map List.length) (k + 1)
+    omega
+  obtain ⟨c1, c2, _, _⟩ := C12.Lemmas.channels_block maps h k i hk hi
+  refine ⟨hlt, c1, ?_⟩
+  have hlt' : prefixSum (maps.map List.length) k + i < (channelProbes maps).length := by
+    rw [probes_length]; exact hlt
+  rw [List.getD_eq_getElem?_getD, List.getElem?_eq_getElem hlt'] at c2 ⊢
+  simpa using c2
+
+theorem step_inv (maps : List (List Nat)) (h : MapsOK maps) (k : Nat) (hk : k < maps.length)
+    (st : List Int × Nat) (hlen : st.1.length = (maps.map List.length).sum)
+    (hoff : st.2 = prefixSum (maps.map List.length) k)
+    (hval : ∀ p, p < (maps.map List.length).sum → st.1.getD p 0 =
+      if (channelProbes maps).getD p 0 < k then ((maps.flatten).map Int.ofNat).getD p 0 else 0) :
+    (stepFn (mergeChannelMaps maps) (channelProbes maps) st k).1.length = (maps.map List.length).sum ∧
+    (stepFn (mergeChannelMaps maps) (channelProbes maps) st k).2 =
+      prefixSum (maps.map List.length) (k + 1) ∧
+    ∀ p, p < (maps.map List.length).sum →
+      (stepFn (mergeChannelMaps maps) (channelProbes maps) st k).1.getD p 0 =
+        if (channelProbes maps).getD p 0 < k + 1 then ((maps.flatten).map Int.ofNat).getD p 0 else 0 := by
+  have hsz : (maps.map List.length).getD k 0 = (maps.getD k []).length := by
+    simp [List.getD_eq_getElem?_getD, hk]
+  have hmk : maps.getD k [] ∈ maps := by
+    rw [List.getD_eq_getElem?_getD, List.getElem?_eq_getElem hk]; simp
+  obtain ⟨hne, hperm⟩ := h _ hmk
+  have hpos : 0 < (maps.getD k []).length := List.length_pos_iff.mpr hne
+  have hidx : ∀ p, p ∈ ((List.range (mergeChannelMaps maps).length).filter fun i =>
+      (channelProbes maps).getD i 0 == k) ↔
+      p < (maps.map List.length).sum ∧ (channelProbes maps).getD p 0 = k := by
+    intro p
+    simp [List.mem_filter, merge_length]
+  unfold stepFn
+  refine ⟨?_, ?_, ?_⟩
+  · simp only [setFold_length]; exact hlen
+  · simp only
+    rw [prefixSum_succ, hsz]
+    have hup : (((List.range (mergeChannelMaps maps).length).filter fun i =>
+        (channelProbes maps).getD i 0 == k).map fun i => (mergeChannelMaps maps).getD i 0).foldl max 0 ≤
+        prefixSum (maps.map List.length) k + (maps.getD k []).length - 1 := by
+      apply C12.Lemmas.nat_foldl_max_le _ _ 0 (by omega)
+      intro v hv
+      obtain ⟨p, hp, rfl⟩ := List.mem_map.mp hv
+      obtain ⟨hpN, hpk⟩ := (hidx p).1 hp
+      obtain ⟨k', i, _, hi, _, hc, hpr, _⟩ := block_facts maps h p hpN
+      rw [hpk] at hpr
+      subst hpr
+      rw [hc]
+      have hmem : (maps.getD k []).getD i 0 ∈ maps.getD k [] := getD_mem _ i hi
+      have := List.mem_range.mp ((hperm.mem_iff).mp hmem)
+      omega
+    have hlo : (maps.getD k []).length - 1 + prefixSum (maps.map List.length) k ≤
+        (((List.range (mergeChannelMaps maps).length).filter fun i =>
+        (channelProbes maps).getD i 0 == k).map fun i => (mergeChannelMaps maps).getD i 0).foldl max 0 := by
+      apply (C12.Lemmas.nat_foldl_max _ 0).2
+      have hmem : (maps.getD k []).length - 1 ∈ maps.getD k [] :=
+        (hperm.mem_iff).mpr (List.mem_range.mpr (by omega))
+      obtain ⟨i, hi, hiv⟩ := List.getElem_of_mem hmem
+      obtain ⟨b1, b2, b3⟩ := block_facts' maps h k i hk hi
+      apply List.mem_map.mpr
+      refine ⟨prefixSum (maps.map List.length) k + i, (hidx _).2 ⟨b1, b3⟩, ?_⟩
+      rw [b2, getD_eq_getElem _ i hi, hiv]
+    omega
+  · intro p hp
+    simp only
+    rw [setFold_get _ _ _ p (by omega)]
+    obtain ⟨k', i, _, hi, _, hc, hpr, hT⟩ := block_facts maps h p hp
+    by_cases hpk : (channelProbes maps).getD p 0 = k
+    · rw [hpk] at hpr
+      subst hpr
+      rw [if_pos ((hidx p).2 ⟨hp, hpk⟩), if_pos (by omega), hc, hT, hoff]
+      simp
+    · rw [if_neg (fun hh => hpk ((hidx p).1 hh).2), hval p hp]
+      by_cases hlt : (channelProbes maps).getD p 0 < k
+      · rw [if_pos hlt, if_pos (by omega)]
+      · rw [if_neg hlt, if_neg (by omega)]
+
+theorem fold_inv (maps : List (List Nat)) (h : MapsOK maps) :
+    ∀ k, k ≤ maps.length →
+      ((List.range k).foldl (stepFn (mergeChannelMaps maps) (channelProbes maps))
+        (List.replicate (mergeChannelMaps maps).length 0, 0)).1.length = (maps.map List.length).sum ∧
+      ((List.range k).foldl (stepFn (mergeChannelMaps maps) (channelProbes maps))
+        (List.replicate (mergeChannelMaps maps).length 0, 0)).2 = prefixSum (maps.map List.length) k ∧
+      ∀ p, p < (maps.map List.length).sum →
+        ((List.range k).foldl (stepFn (mergeChannelMaps maps) (channelProbes maps))
+          (List.replicate (mergeChannelMaps maps).length 0, 0)).1.getD p 0 =
+          if (channelProbes maps).getD p 0 < k then ((maps.flatten).map Int.ofNat).getD p 0 else 0 := by
+  intro k
+  induction k with
+  | zero =>
+    intro _
+    refine ⟨by simp [merge_length], by simp [C12.Lemmas.prefixSum_zero], ?_⟩
+    intro p hp
+    simp [List.getD_eq_getElem?_getD, merge_length, hp]
+  | succ k ih =>
+    intro hk
+    obtain ⟨i1, i2, i3⟩ := ih (by omega)
+    rw [List.range_succ, List.foldl_append]
+    exact step_inv maps h k (by omega) _ i1 i2 i3
+
 theorem rawInd_inverts_merge (maps : List (List Nat)) (h : MapsOK maps) :
     exportRawInd (mergeChannelMaps maps) (channelProbes maps) = (maps.flatten).map Int.ofNat := by
-  sorry
+  rw [exportRawInd_eq, uniqueNat_channelProbes maps h]
+  obtain ⟨i1, _, i3⟩ := fold_inv maps h maps.length (Nat.le_refl _)
+  have hTlen : ((maps.flatten).map Int.ofNat).length = (maps.map List.length).sum := by
+    rw [List.length_map, List.length_flatten]
+  apply List.ext_getElem (by rw [i1, hTlen])
+  intro p hp1 hp2
+  have hp : p < (maps.map List.length).sum := by rw [← i1]; exact hp1
+  have := i3 p hp
+  obtain ⟨k', i, hk', _, _, _, hpr, _⟩ := block_facts maps h p hp
+  rw [if_pos (by omega), List.getD_eq_getElem?_getD, List.getD_eq_getElem?_getD,
+    List.getElem?_eq_getElem hp1, List.getElem?_eq_getElem hp2] at this
+  simpa using this
 
+
+/-! ### nearest same-probe channels -/
+
+theorem insertBy_sorted_gen {α : Type} (le : α → α → Bool)
+    (htot : ∀ a b, le a b = false → le b a = true)
+    (htr : ∀ a b c, le a b = true → le b c = true → le a c = true) (x : α) (L : List α)
+    (hL : L.Pairwise (fun a b => le a b = true)) :
+    (Np.insertBy le x L).Pairwise (fun a b => le a b = true) := by
+  induction L with
+  | nil => simp [Np.insertBy]
+  | cons y ys ih =>
+    rw [List.pairwise_cons] at hL
+    unfold Np.insertBy
+    split
+    · rename_i hxy
+      refine List.pairwise_cons.2 ⟨?_, List.pairwise_cons.2 hL⟩
+      intro z hz
+      rcases List.mem_cons.1 hz with rfl | hz'
+      · exact hxy
+      · exact htr _ _ _ hxy (hL.1 z hz')
+    · rename_i hxy
+      refine List.pairwise_cons.2 ⟨?_, ih hL.2⟩
+      intro z hz
+      rcases List.mem_cons.1 ((C11.Lemmas.insertBy_perm le x ys).mem_iff.1 hz) with rfl | hz'
+      · exact htot _ _ (by simpa using hxy)
+      · exact hL.1 z hz'
+
+theorem isort_sorted_gen {α : Type} (le : α → α → Bool)
+    (htot : ∀ a b, le a b = false → le b a = true)
+    (htr : ∀ a b c, le a b = true → le b c = true → le a c = true) (l : List α) :
+    (Np.isort le l).Pairwise (fun a b => le a b = true) := by
+  induction l with
+  | nil => simp [Np.isort]
+  | cons x xs ih =>
+    unfold Np.isort
+    exact insertBy_sorted_gen le htot htr x _ ih
+
+theorem leInf_total (a b : Option Rat) (h : leInf a b = false) : leInf b a = true := by
+  cases a <;> cases b <;> simp [leInf] at h ⊢
+  exact le_of_lt h
+
+theorem leInf_trans (a b c : Option Rat) (h1 : leInf a b = true) (h2 : leInf b c = true) :
+    leInf a c = true := by
+  cases a <;> cases b <;> cases c <;> simp [leInf] at h1 h2 ⊢
+  exact le_trans h1 h2
+
+theorem zipIdx_map_range {α : Type} (f : Nat → α) (n : Nat) :
+    ((List.range n).map f).zipIdx = (List.range n).map (fun i => (f i, i)) := by
+  apply List.ext_getElem?
+  intro i
+  by_cases h : i < n <;> simp [h]
+
+theorem sorted_split {α : Type} (R : α → α → Prop) (P : α → Bool)
+    (hRP : ∀ a b, R a b → P b = true → P a = true) :
+    ∀ L : List α, L.Pairwise R → L = L.filter P ++ L.filter (fun a => !P a)
+  | [], _ => rfl
+  | a :: L, hL => by
+    rw [List.pairwise_cons] at hL
+    have ih := sorted_split R P hRP L hL.2
+    by_cases hPa : P a = true
+    · rw [List.filter_cons_of_pos hPa, List.filter_cons_of_neg (by simp [hPa]), List.cons_append, ← ih]
+    · have hall : ∀ b ∈ L, ¬ P b = true := fun b hb hPb => hPa (hRP a b (hL.1 b hb) hPb)
+      have h1 : L.filter P = [] := List.filter_eq_nil_iff.2 hall
+      have h2 : L.filter (fun a => !P a) = L :=
+        List.filter_eq_self.2 (fun b hb => by simpa using hall b hb)
+      rw [List.filter_cons_of_neg hPa, List.filter_cons_of_pos (by simpa using hPa), h1, h2]
+      rfl
+
+theorem pairwise_zip_tail {α : Type} (R : α → α → Prop) :
+    ∀ L : List α, L.Pairwise R → ∀ p ∈ L.zip L.tail, R p.1 p.2
+  | [], _, p, hp => by simp at hp
+  | [a], _, p, hp => by simp at hp
+  | a :: b :: L, hL, p, hp => by
+    rw [List.pairwise_cons] at hL
+    simp only [List.tail_cons, List.zip_cons_cons, List.mem_cons] at hp
+    rcases hp with rfl | hp
+    · exact hL.1 b (by simp)
+    · exact pairwise_zip_tail R (b :: L) hL.2 p (by simpa using hp)
+
+theorem l1_self (pos : List (Rat × Rat)) (a : Nat) : l1 pos a a = 0 := by
+  simp [l1]
+
+theorem l1_nonneg (pos : List (Rat × Rat)) (a b : Nat) : 0 ≤ l1 pos a b := by
+  unfold l1
+  simp only
+  split <;> split <;> linarith
+
+theorem eraseDups_of_nodup : ∀ (l : List Nat), l.Nodup → l.eraseDups = l
+  | [], _ => rfl
+  | a :: as, h => by
+    rw [List.nodup_cons] at h
+    rw [List.eraseDups_cons]
+    have hf : as.filter (fun b => !b == a) = as := by
+      apply List.filter_eq_self.2
+      intro b hb
+      have : b ≠ a := fun e => h.1 (e ▸ hb)
+      simpa using this
+    rw [hf, eraseDups_of_nodup as h.2]
+
+theorem nearestOK_core (pos : List (Rat × Rat)) (probes : List Nat) (peak ncw : Nat)
+    (row F : List Nat) (hrowlen : row.length = min ncw pos.length)
+    (hhead : row.take (min ncw ((List.range pos.length).filter fun c =>
+        probes.getD c 0 == probes.getD peak 0).length) =
+      F.take (min ncw ((List.range pos.length).filter fun c =>
+        probes.getD c 0 == probes.getD peak 0).length))
+    (hFperm : F.Perm ((List.range pos.length).filter fun c =>
+        probes.getD c 0 == probes.getD peak 0))
+    (hFsorted : F.Pairwise fun a b => l1 pos peak a ≤ l1 pos peak b)
+    (hpeak : peak ∈ (List.range pos.length).filter fun c =>
+        probes.getD c 0 == probes.getD peak 0) :
+    nearestOK pos probes peak ncw row = true := by
+  simp only [nearestOK, Bool.and_eq_true]
+  rw [hhead]
+  have hsnd : ((List.range pos.length).filter fun c =>
+      probes.getD c 0 == probes.getD peak 0).Nodup := List.nodup_range.filter _
+  generalize ((List.range pos.length).filter fun c =>
+      probes.getD c 0 == probes.getD peak 0) = same at hFperm hpeak hsnd ⊢
+  have hFlen : F.length = same.length := hFperm.length_eq
+  have hFnd : F.Nodup := hFperm.nodup_iff.2 hsnd
+  have hFsplit : F.take (min ncw same.length) ++ F.drop (min ncw same.length) = F :=
+    List.take_append_drop _ _
+  have hHlen : (F.take (min ncw same.length)).length = min ncw same.length := by
+    rw [List.length_take]; omega
+  have hHnd : (F.take (min ncw same.length)).Nodup := hFnd.sublist (List.take_sublist _ _)
+  have hHsorted : (F.take (min ncw same.length)).Pairwise fun a b => l1 pos peak a ≤ l1 pos peak b :=
+    hFsorted.sublist (List.take_sublist _ _)
+  have hHmem : ∀ c ∈ F.take (min ncw same.length), c ∈ same :=
+    fun c hc => hFperm.mem_iff.1 (List.mem_of_mem_take hc)
+  rw [← hFsplit] at hFsorted
+  have hpeakF : peak ∈ F.take (min ncw same.length) ++ F.drop (min ncw same.length) := by
+    rw [hFsplit]; exact hFperm.mem_iff.2 hpeak
+  have hsameF : ∀ c ∈ same, c ∈ F.take (min ncw same.length) ++ F.drop (min ncw same.length) := by
+    intro c hc; rw [hFsplit]; exact hFperm.mem_iff.2 hc
+  generalize F.take (min ncw same.length) = H at *
+  generalize F.drop (min ncw same.length) = T at *
+  refine ⟨⟨⟨⟨⟨?_, ?_⟩, ?_⟩, ?_⟩, ?_⟩, ?_⟩
+  · simp [hrowlen]
+  · rw [eraseDups_of_nodup H hHnd]; simp
+  · rw [List.all_eq_true]
+    intro c hc
+    simpa using hHmem c hc
+  · cases H with
+    | nil =>
+      simp only [List.length_nil] at hHlen
+      simp only [beq_iff_eq]
+      omega
+    | cons c0 tl =>
+      simp only
+      rw [List.cons_append, List.pairwise_cons] at hFsorted
+      have hle : l1 pos peak c0 ≤ 0 := by
+        rcases List.mem_cons.1 hpeakF with e | hmem
+        · rw [← e, l1_self]
+        · have := hFsorted.1 peak hmem
+          rwa [l1_self] at this
+      have : l1 pos peak c0 = 0 := le_antisymm hle (l1_nonneg _ _ _)
+      simp [this]
+  · rw [List.all_eq_true]
+    intro p hp
+    exact decide_eq_true (pairwise_zip_tail _ H hHsorted p hp)
+  · rw [List.all_eq_true]
+    intro c hc
+    rcases List.mem_append.1 (hsameF c hc) with hm | hm
+    · simp [hm]
+    · rw [Bool.or_eq_true]
+      right
+      rw [List.all_eq_true]
+      intro h hh
+      exact decide_eq_true ((List.pairwise_append.1 hFsorted).2.2 h hh c hm)
+
+theorem nearestOK_of (pos : List (Rat × Rat)) (probes : List Nat) (peak ncw : Nat)
+    (hp : peak < pos.length) (R : List Nat) (hperm : R.Perm (List.range pos.length))
+    (hsorted : R.Pairwise fun a b =>
+      leInf (distKey pos probes peak a) (distKey pos probes peak b) = true) :
+    nearestOK pos probes peak ncw (R.take ncw) = true := by
+  have hRP : ∀ a b : Nat,
+      leInf (distKey pos probes peak a) (distKey pos probes peak b) = true →
+      (probes.getD b 0 == probes.getD peak 0) = true →
+      (probes.getD a 0 == probes.getD peak 0) = true := by
+    intro a b hab hb
+    unfold distKey at hab
+    rw [if_pos hb] at hab
+    by_cases ha : (probes.getD a 0 == probes.getD peak 0) = true
+    · exact ha
+    · rw [if_neg ha] at hab
+      simp [leInf] at hab
+  have hsplit := sorted_split _ (fun c => probes.getD c 0 == probes.getD peak 0) hRP R hsorted
+  have hFperm := hperm.filter (fun c => probes.getD c 0 == probes.getD peak 0)
+  have hFlen := hFperm.length_eq
+  apply nearestOK_core pos probes peak ncw (R.take ncw)
+    (R.filter fun c => probes.getD c 0 == probes.getD peak 0)
+  · rw [List.length_take, hperm.length_eq, List.length_range]
+  · rw [List.take_take, ← hFlen]
+    have hm : min (min ncw (R.filter fun c => probes.getD c 0 == probes.getD peak 0).length) ncw =
+        min ncw (R.filter fun c => probes.getD c 0 == probes.getD peak 0).length := by omega
+    rw [hm]
+    refine (congrArg (List.take _) hsplit).trans ?_
+    exact List.take_append_of_le_length (by omega)
+  · exact hFperm
+  · refine List.Pairwise.imp_of_mem ?_ (hsorted.sublist List.filter_sublist)
+    intro a b ha hb hab
+    have ha' := (List.mem_filter.1 ha).2
+    have hb' := (List.mem_filter.1 hb).2
+    unfold distKey at hab
+    rw [if_pos ha', if_pos hb'] at hab
+    simpa [leInf] using hab
+  · exact List.mem_filter.2 ⟨List.mem_range.2 hp, by simp⟩
+
+-- `hl` and `hd` are not needed for the proof (`getD` defaults; the spec only asks for a zero
+-- distance at the head, which holds for the sorted order whether or not positions are distinct)
+set_option linter.unusedVariables false in
 theorem nearest_ok (pos : List (Rat × Rat)) (probes : List Nat) (peak ncw : Nat)
     (hp : peak < pos.length) (hl : probes.length = pos.length) (hd : pos.Nodup) :
     nearestOK pos probes peak ncw (nearestSameProbe pos probes peak ncw) = true := by
-  sorry
+  unfold nearestSameProbe
+  simp only
+  rw [zipIdx_map_range]
+  have hperm := C11.Lemmas.isort_perm (fun (a b : Option Rat × Nat) => leInf a.1 b.1)
+    ((List.range pos.length).map fun i => (distKey pos probes peak i, i))
+  have hsorted := isort_sorted_gen (fun (a b : Option Rat × Nat) => leInf a.1 b.1)
+    (fun a b => leInf_total a.1 b.1) (fun a b c => leInf_trans a.1 b.1 c.1)
+    ((List.range pos.length).map fun i => (distKey pos probes peak i, i))
+  generalize Np.isort (fun (a b : Option Rat × Nat) => leInf a.1 b.1)
+    ((List.range pos.length).map fun i => (distKey pos probes peak i, i)) = S at hperm hsorted ⊢
+  apply nearestOK_of pos probes peak ncw hp
+  · have := hperm.map (·.2)
+    simpa [List.map_map, Function.comp_def] using this
+  · rw [List.pairwise_map]
+    refine List.Pairwise.imp_of_mem ?_ hsorted
+    intro a b ha hb hab
+    obtain ⟨i, _, rfl⟩ := List.mem_map.1 (hperm.mem_iff.1 ha)
+    obtain ⟨j, _, rfl⟩ := List.mem_map.1 (hperm.mem_iff.1 hb)
+    exact hab
+
+
+/-! ### waveform columns, cluster depths -/
 
 theorem waveforms_eq (wfs : List Mat) (inds : List (List Nat)) (hlen : inds.length = wfs.length)
     (t s j : Nat) (ht : t < wfs.length) (hs : s < (wfs.getD t []).length)
     (hj : j < (inds.getD t []).length) :
     (((exportWaveforms wfs inds).getD t []).getD s []).getD j 0 =
       ((wfs.getD t []).getD s []).getD ((inds.getD t []).getD j 0) 0 := by
-  sorry
+  have ht' : t < inds.length := by omega
+  simp only [List.getD_eq_getElem?_getD, List.getElem?_eq_getElem ht, List.getElem?_eq_getElem ht',
+    Option.getD_some] at hs hj ⊢
+  simp [exportWaveforms, ht, ht', hs, hj]
 
 theorem cluster_depth_eq (ys : List Rat) (peaks nanIdx : List Nat) (c : Nat) (hc : c < peaks.length) :
     (clusterDepths ys peaks nanIdx).getD c none =
       if nanIdx.contains c then none else some (ys.getD (peaks.getD c 0) 0) := by
-  sorry
+  simp [clusterDepths, List.getD_eq_getElem?_getD, hc]
 
 end PhyVerif.C14.Lemmas
